@@ -155,8 +155,11 @@ Definition prog_ok (x : option (list Qc)) (y : list Qc) (e : option exn) (steps 
   end.
 """
 
-    def __init__(self, aspects, ops=None, max_len=8, exhaustive_domain=False, invalid=False, queries=True):
+    def __init__(self, aspects, ops=None, max_len=8, exhaustive_domain=False, invalid=False, queries=True, invalid_kinds=None):
         self.aspects = set(aspects)
+        # invalid requests of these classes are issued IN THE MIDDLE of programs (the program goes on afterwards): what a
+        # refused request leaves behind is what the next valid operation of this property works on
+        self.invalid_kinds = list(invalid_kinds) if invalid_kinds else None
         self.ops = ops
         self.max_len = max_len
         self.exhaustive_domain = exhaustive_domain
@@ -191,6 +194,18 @@ Definition prog_ok (x : option (list Qc)) (y : list Qc) (e : option exn) (steps 
                     cases.append({"x": gens.sorted_x(rng, m), "y": gens.values(rng, m), "seed": rng.randrange(1 << 30),
                                   "len": len(pre) + 1, "first_ops": pre + [name], "pool": pool, "as_list": False, "int_x": False,
                                   "x_none": False, "invalid": self.invalid})
+        if "smooth" in pool and "append" in pool:
+            # closed series (first value = last value, as append_one_sample(make_periodic=True) produces) that are far from
+            # mirror-symmetric: an abrupt change right after the start, a calm end — smoothed with several conditions
+            for _ in range(12 if tier == "quick" else 120):
+                m = rng.randint(7, 12)
+                base = gens.dyadic(rng, -4, 4, 2)
+                jump = rng.choice([-1, 1]) * rng.choice([4.0, 6.0, 8.0, 3.5])
+                ys = [base, base + jump] + [base + jump * (1 - (i + 1) / (m - 1)) + rng.choice([0.0, 0.125, -0.125, 0.25]) for i in range(m - 2)]
+                xs = [float(i) for i in range(m)] if rng.random() < 0.5 else gens.sorted_x(rng, m)
+                for sv in rng.sample([0.5, 1.0, 10.0, 0.01, 2.0, 5.0], 3):
+                    cases.append({"x": xs, "y": ys, "script": [{"op": "append", "periodic": True}, {"op": "smooth", "s": sv}], "seed": 1, "len": 2,
+                                  "pool": [], "as_list": False, "int_x": False, "x_none": False, "invalid": False})
         if self.queries or self.invalid:
             # zero as a bound (falsy in Python): on a series straddling 0, and as a value that is not a sample
             zx = [-3.0, -2.0, -1.0, 0.0, 1.0, 2.0, 3.0]
@@ -341,10 +356,10 @@ Definition prog_ok (x : option (list Qc)) (y : list Qc) (e : option exn) (steps 
             return {"op": name, "start": start, "stop": stop, "step": rng.choice([1, 1, 2])}
         raise AssertionError(name)
 
-    def choose_invalid(self, rng, w):
+    def choose_invalid(self, rng, w, kinds=None):
         x = np.asarray(w.x, dtype=float)
         n = len(x)
-        kind = rng.choice(["n_below_2", "rule_t", "rule_r", "strategy", "method", "fixed_not_in_x", "fixed_too_many", "trunc_inverted",
+        kind = rng.choice(kinds) if kinds else rng.choice(["n_below_2", "rule_t", "rule_r", "strategy", "method", "fixed_not_in_x", "fixed_too_many", "trunc_inverted",
                            "trunc_inverted_ratio", "index_start", "index_stop", "slice_start", "slice_stop", "slice_value_absent",
                            "grid_ends", "grid_ends_permuted", "interp_none"])
         mid = float((x[0] + x[1]) / 2) if n >= 2 else 0.5
@@ -414,7 +429,24 @@ Definition prog_ok (x : option (list Qc)) (y : list Qc) (e : option exn) (steps 
         elif name == "trend":
             w.trend(poly(o["coef"]), normalized=o["normalized"])
         elif name == "smooth":
-            w.smooth(o["s"])
+            # record what FITPACK returns for this call: the model stores exactly that answer, evaluated at x
+            import traffic_weaver.process as P
+            from scipy.interpolate import BSpline
+            real = P.splrep
+            got = []
+
+            def rec_splrep(*a, **k):
+                r = real(*a, **k)
+                got.append(r)
+                return r
+            P.splrep = rec_splrep
+            xb = np.asarray(w.x, dtype=float).copy()
+            try:
+                w.smooth(o["s"])
+            finally:
+                P.splrep = real
+            if len(got) == 1:
+                o["_fitpack_answer"] = np.asarray(BSpline(*got[0])(xb), dtype=float).tolist()
         elif name == "noise":
             old = np.random.normal
             np.random.normal = rec
@@ -464,6 +496,8 @@ Definition prog_ok (x : option (list Qc)) (y : list Qc) (e : option exn) (steps 
                     o = dict(script[k])
                 elif c["invalid"] and k == nsteps:
                     o = self.choose_invalid(rng, w)
+                elif self.invalid_kinds and k > 0 and rng.random() < 0.3 and len(np.asarray(w.x)) >= 2:
+                    o = self.choose_invalid(rng, w, self.invalid_kinds)
                 else:
                     o = None
                     for _ in range(5):
@@ -549,7 +583,8 @@ Definition prog_ok (x : option (list Qc)) (y : list Qc) (e : option exn) (steps 
         if n == "trend":
             return "OTrend %s %s" % (coq_poly(o["coef"]), cb(o["normalized"]))
         if n == "smooth":
-            return "OSmooth %s" % qlist(st["state"][1] or [])
+            ans = o.get("_fitpack_answer")
+            return "OSmooth %s" % qlist(ans if ans is not None else (st["state"][1] or []))
         if n == "noise":
             return "ONoise %s" % qlist(st["normal_call"]["draw"] if "normal_call" in st else [])
         if n == "restore":
@@ -612,10 +647,11 @@ Definition prog_ok (x : option (list Qc)) (y : list Qc) (e : option exn) (steps 
             S, B = st["state"], st["before"]
             # ---------- C20: rejected request
             if "invalid" in op:
+                rp = "C20" if ("C20" in self.aspects or not self.invalid_kinds) else sorted(self.aspects)[0]
                 if st.get("exc") != "ValueError":
-                    fail("C20", "rejection-" + op["invalid"], "step %d: invalid request %s gave %s, not ValueError" % (i, op, st.get("exc_msg") or "no exception"), cls=op["invalid"])
+                    fail(rp, "rejection-" + op["invalid"], "step %d: invalid request %s gave %s, not ValueError" % (i, op, st.get("exc_msg") or "no exception"), cls=op["invalid"])
                 elif S != B:
-                    fail("C20", "rejected-but-changed", "step %d: rejected %s changed the object" % (i, op), cls=op["invalid"])
+                    fail(rp, "rejected-but-changed", "step %d: rejected %s changed the object (the next operation works on a corrupted series)" % (i, op), cls=op["invalid"])
                 continue
             if "exc" in st:
                 if st["exc"] == "ValueError" and S != B:
